@@ -399,6 +399,11 @@ def run_one(ck, prog):
             n_sites += 1
             okd, whyd = panics.discharge(c2, site)
             short = p2[len(INNER) + 2:]
+            if not okd and site["kind"].startswith("overflow") and short in ("try_read::{closure#0}", "try_write::{closure#0}"):
+                # the branch form of the lazy closure: `if pred(s) { Some(s + C) } else { None }` - the sum is under the admission test
+                pr = "is_read_lockable" if short.startswith("try_read") else "is_unlocked"
+                if any(f[0] == "truth" and f[2] is True and isinstance(f[1], tuple) and f[1][0] == "call" and (f[1][1] or "").endswith("::" + pr) for f in panics.dominating_facts(c2, site["bb"])):
+                    okd, whyd = True, f"computed only under {pr}(s) == true: the sum fits"
             rev = next((r for (fn_, pre), r in REVIEWED.items() if fn_ == short and site["key"].startswith(pre)), None)
             from ..engine.cfg import span_str
             ck.ob("C02.11", f"{short}|{site['key'][:70]}", okd or rev is not None, fn=p2, site=span_str(site["sp"]),
@@ -413,6 +418,11 @@ def run_one(ck, prog):
         thens = [(bb, t) for bb, t in c3.cfg.calls(lambda t: (t.get("callee") or "").endswith(("bool::then", "bool::then_some", "<impl bool>::then", "<impl bool>::then_some")))]
         ok = len(thens) == 1 and thens[0][1]["callee"].endswith("::then") and mentions(c3.args(thens[0][0])[0], c3.prov, lambda z: z[0] == "call" and (z[1] or "").endswith("::" + pred)) and \
             not any(site["kind"].startswith("overflow") for site in panics.sites(c3))
+        if not thens:
+            # branch form: every arithmetic site of the closure sits under pred(s) == true
+            ar = [site for site in panics.sites(c3) if site["kind"].startswith("overflow")]
+            ok = all(any(f[0] == "truth" and f[2] is True and isinstance(f[1], tuple) and f[1][0] == "call" and (f[1][1] or "").endswith("::" + pred) for f in panics.dominating_facts(c3, site["bb"])) for site in ar) and \
+                any(f[0] == "truth" and isinstance(f[1], tuple) and f[1][0] == "call" and (f[1][1] or "").endswith("::" + pred) for sb in c3.cfg.live_blocks() if c3.cfg.term(sb)["k"] == "switch" for e in c3.cfg.succ[sb] for f in c3.edge_facts(e))
         ck.ob("C02.11", f"{nm}|new-word-computed-only-for-an-admitting-state", ok, fn=outer["path"],
               detail=f"the new lock word must be computed lazily under {pred}(s) (`{pred}(s).then(|| s + ..)`); computing it before the test overflows for non-admitting states")
 
@@ -538,6 +548,38 @@ def classify(prog, ctx, op, word, STATE, NOTIFY, C):
         if clo is None or clo not in prog.fns:
             return None, "fetch_update closure not found"
         cctx = prog.ctx(clo)
+        # branch form: `if pred(s) { Some(s + C) } else { None }` - every Some(..) is built under pred(s) == true
+        from ..engine import panics as _pn
+        somes, nones, other = [], [], 0
+        for b in prog.fns[clo]["blocks"]:
+            if b.get("cleanup") or b["id"] not in cctx.cfg.live_blocks():
+                continue
+            for i, st in enumerate(b["stmts"]):
+                if st["k"] == "assign" and st["dst"]["l"] == 0 and not st["dst"].get("p"):
+                    rv = strip_casts(cctx.prov.rvalue(st["rv"], (b["id"], i)))
+                    if isinstance(rv, tuple) and rv[0] == "agg" and rv[2] == "Some" and rv[3]:
+                        somes.append((b["id"], strip_casts(rv[3][0])))
+                    elif isinstance(rv, tuple) and rv[0] == "agg" and rv[2] == "None":
+                        nones.append(b["id"])
+                    else:
+                        other += 1
+        if somes and nones and not other:
+            kinds = set()
+            for bb, nv in somes:
+                truths = [f for f in _pn.dominating_facts(cctx, bb) if f[0] == "truth" and f[2] is True and isinstance(f[1], tuple) and f[1][0] == "call" and f[1][2] and
+                          isinstance(strip_casts(f[1][2][0]), tuple) and strip_casts(f[1][2][0])[0] == "param" and strip_casts(f[1][2][0])[1] == 2]
+                preds = {f[1][1] for f in truths}
+                ok_s = isinstance(nv, tuple) and nv[0] == "bin" and isinstance(strip_casts(nv[2]), tuple) and strip_casts(nv[2])[0] == "param" and strip_casts(nv[2])[1] == 2
+                cst = const_value(nv[3]) if ok_s else None
+                if ok_s and nv[1] == "Add" and cst == RL and PRED("is_read_lockable") in preds:
+                    kinds.add("read-acquire")
+                # under is_unlocked(s) the low bits are zero, so s | WRITE_LOCKED is s + WRITE_LOCKED (WRITE_LOCKED == MASK, checked in C02.0)
+                elif ok_s and nv[1] in ("Add", "BitOr") and cst == WL and PRED("is_unlocked") in preds:
+                    kinds.add("write-acquire")
+                else:
+                    return None, f"fetch_update closure builds Some({show(nv)}) under {sorted(p_.split('::')[-1] for p_ in preds)}: not an admissible acquisition"
+            if len(kinds) == 1:
+                return next(iter(kinds)), ""
         rets = list(cctx.ret_expr().values())
         if len(rets) != 1:
             return None, "fetch_update closure has several returns"
